@@ -121,6 +121,20 @@ def rows_of(t, rank: int) -> List[List[Any]]:
     return out
 
 
+def waits_of(t, rank: int) -> List[List[int]]:
+    """`[idx, wait_on_stream, wait_on_cuda_event_record_corr_id]` for the rows of the loaded frame that carry either
+    (CUDA-event based synchronisation records); every other row has (-1, -1)."""
+    df = t.get_trace(rank)
+    if "wait_on_stream" not in df.columns or "wait_on_cuda_event_record_corr_id" not in df.columns:
+        return []
+    out = []
+    for rec in df[["index", "wait_on_stream", "wait_on_cuda_event_record_corr_id"]].itertuples(index=False):
+        a, b = _i(rec[1]), _i(rec[2])
+        if a != -1 or b != -1:
+            out.append([_i(rec[0]), a, b])
+    return out
+
+
 def _pid(v: Any) -> int:
     try:
         return _i(v)
